@@ -17,7 +17,9 @@ mod exec;
 mod gen;
 mod ledger;
 mod minimise;
+mod world_boxcar;
 mod world_nucleo;
+mod world_sort;
 
 #[global_allocator]
 static ALLOC: alloc::SimAlloc = alloc::SimAlloc;
@@ -27,29 +29,48 @@ use exec::{Job, Outcome};
 #[derive(Serialize, Deserialize, Clone, Debug)]
 pub enum AnyScript {
     Nucleo(world_nucleo::NucleoScript),
+    Boxcar(world_boxcar::BoxcarScript),
+    Sort(world_sort::SortScript),
 }
 impl AnyScript {
     pub fn job(&self) -> Rc<dyn Job> {
         match self {
             AnyScript::Nucleo(s) => Rc::new(s.clone()),
+            AnyScript::Boxcar(s) => Rc::new(s.clone()),
+            AnyScript::Sort(s) => Rc::new(s.clone()),
         }
     }
     pub fn summary(&self) -> String {
         match self {
             AnyScript::Nucleo(s) => format!("nucleo: {}", s.summary()),
+            AnyScript::Boxcar(s) => format!("boxcar: {}", s.summary()),
+            AnyScript::Sort(s) => format!("sort: {}", s.summary()),
         }
     }
     pub fn world(&self) -> &'static str {
         match self {
             AnyScript::Nucleo(s) if s.event_loop => "eventloop",
             AnyScript::Nucleo(_) => "nucleo",
+            AnyScript::Boxcar(_) => "boxcar",
+            AnyScript::Sort(_) => "sort",
+        }
+    }
+    pub fn strategy(&self) -> &'static str {
+        match self {
+            AnyScript::Nucleo(s) => s.sched.strategy_name(),
+            AnyScript::Boxcar(s) => s.sched.strategy_name(),
+            AnyScript::Sort(s) => s.sched.strategy_name(),
         }
     }
 }
 
 /// one-step reductions for worlds other than W-nucleo
-pub fn minimise_other(_s: &AnyScript) -> Vec<AnyScript> {
-    Vec::new()
+pub fn minimise_other(s: &AnyScript) -> Vec<AnyScript> {
+    match s {
+        AnyScript::Boxcar(b) => world_boxcar::candidates(b).into_iter().map(AnyScript::Boxcar).collect(),
+        AnyScript::Sort(b) => world_sort::candidates(b).into_iter().map(AnyScript::Sort).collect(),
+        AnyScript::Nucleo(_) => Vec::new(),
+    }
 }
 
 #[derive(Serialize, Deserialize, Clone, Debug)]
@@ -84,8 +105,10 @@ fn plan(property: &str) -> Vec<(&'static str, &'static str, u32)> {
         "C19" => vec![("nucleo", "C19", 6), ("nucleo", "C12", 2), ("nucleo", "mix", 2)],
         "C20" => vec![("nucleo", "C20", 7), ("nucleo", "C12", 2)],
         "C13" => vec![("nucleo", "C13", 1)],
-        "C11" => vec![("nucleo", "C11", 1)],
-        "C09" => vec![("nucleo", "C09", 1)],
+        "C08" => vec![("boxcar", "C08", 8), ("nucleo", "C09", 1), ("nucleo", "mix", 1)],
+        "C11" => vec![("nucleo", "C11", 3), ("boxcar", "C11", 2)],
+        "C09" => vec![("nucleo", "C09", 2), ("boxcar", "C09", 2), ("sort", "C18", 1)],
+        "C18" => vec![("sort", "C18", 1)],
         _ => vec![("nucleo", "mix", 1)],
     }
 }
@@ -115,6 +138,8 @@ pub fn generate(property: &str, verif_seed: u64, index: u64, thorough: bool) -> 
     }
     let mut rng = SplitMix::derive(run_seed(verif_seed, property, index), 1);
     let script = match chosen.0 {
+        "boxcar" => AnyScript::Boxcar(world_boxcar::generate(&mut rng, chosen.1, thorough)),
+        "sort" => AnyScript::Sort(world_sort::generate(&mut rng, chosen.1, thorough)),
         _ => AnyScript::Nucleo(world_nucleo::generate(&mut rng, chosen.1, thorough)),
     };
     (script, chosen.1)
@@ -218,9 +243,7 @@ fn batch(a: &Args) -> i32 {
             for (k, v) in &out.faults {
                 *ag.faults.entry(k.to_string()).or_insert(0) += v;
             }
-            let strat = match &script {
-                AnyScript::Nucleo(s) => s.sched.strategy_name(),
-            };
+            let strat = script.strategy();
             *ag.strategies.entry(strat.to_string()).or_insert(0) += 1;
             *ag.worlds.entry(format!("{}/{}", script.world(), focus)).or_insert(0) += 1;
             if out.stats.preemptions > 0 {
